@@ -59,6 +59,18 @@ def both_role(rng, p):
     return {"both": True, "builds_before": rng.choice([0, 0, 1, 2, p.r]), "build_slot": rng.choice(["buf", "buf", "null"])}
 
 
+def cb_timing(rng, cb):
+    """a tenth of the executions with a callback register it late, another tenth replace it by another one"""
+    if not cb:
+        return {}
+    x = rng.random()
+    if x < 0.1:
+        return {"cb_late": True}
+    if x < 0.2:
+        return {"cb_replace": rng.choice([m for m in ("buf", "null", "mix") if m != cb.split(" ")[0]])}
+    return {}
+
+
 def pick_len(rng, n):
     if n <= 48 and rng.random() < 0.08:
         return rng.choice(BIG_LENGTHS)
@@ -96,9 +108,10 @@ def random_ldpc(rng, count, kmax, cbs=(None,), apis=("recv", "setavail"), payloa
         if api == "setavail":
             sub = sorted(set(sub))
         fin = rng.choice(finish_choices)
-        execs.append(gen.decode_exec(p, sub, api=api, finish=fin, cb=rng.choice(cbs),
+        cbm = rng.choice(cbs)
+        execs.append(gen.decode_exec(p, sub, api=api, finish=fin, cb=cbm,
                                      probe=rng.choice(probe_choices) if n <= 40 else "end",
-                                     refinish=fin and rng.random() < 0.3, **both_role(rng, p)))
+                                     refinish=fin and rng.random() < 0.3, **both_role(rng, p), **cb_timing(rng, cbm)))
     return execs
 
 
@@ -218,9 +231,10 @@ def random_rs(rng, count, nmax, cbs=(None,), apis=("recv", "setavail"), payloads
         if api == "setavail":
             sub = sorted(set(sub))
         fin = rng.choice([True, True, False])
-        execs.append(gen.decode_exec(p, sub, api=api, finish=fin, cb=rng.choice(cbs),
+        cbm = rng.choice(cbs)
+        execs.append(gen.decode_exec(p, sub, api=api, finish=fin, cb=cbm,
                                      probe="each" if n <= 12 else "end",
-                                     refinish=fin and rng.random() < 0.3, **both_role(rng, p)))
+                                     refinish=fin and rng.random() < 0.3, **both_role(rng, p), **cb_timing(rng, cbm)))
     return execs
 
 
